@@ -17,4 +17,5 @@ open Emboss.Tok
 #print axioms C10_word_run
 #print axioms C10_word_classes
 #print axioms C10_number_classes_partial
+#print axioms C10_word_tokens
 #print axioms C10_number_classes_counterexample
